@@ -82,7 +82,11 @@ def run_scenario(args):
                 elif r != 'unsat':
                     out['status'] = 'inconclusive'; out['notes'].append('obligation %s: solver %s' % (kind, mod))
         # 2. vacuity witness: the scenario can run to completion within the bounds
-        r, mod = ask('witness:quiescent', w.quiescent)
+        wit = w.quiescent
+        if spec.get('witness') == 'ungated_done':
+            from .expr import Eq, ONE, ZERO
+            wit = And(*[Eq(w.ghost.get('nrun%d' % o['opid'], ZERO), ONE) for o in w.ops.values() if not o.get('gated')])
+        r, mod = ask('witness:' + (spec.get('witness') or 'quiescent'), wit)
         if r != 'sat':
             out['status'] = 'inconclusive'; out['notes'].append('vacuous: no schedule within the bounds lets every thread finish (%s)' % r)
         else:
